@@ -284,7 +284,17 @@ def r6(ctx):
             a1 = Slicer(ctx.w).atoms(rf, t["args"][1])
             if not (any(":dst@" in a for a in a0) and any(":src@" in a for a in a1)):
                 bad += 1
-        ctx.inst(R, "receive_from_network:lookup-order", bad == 0 and n >= 3, rf.span, f"{n} stream lookups use SocketPair(dst, src)" if bad == 0 else
+        # every lookup in the stream table is keyed by such a pair
+        keyed = True
+        nl = 0
+        for fb in ctx.w.family(rf.id):
+            for bb, t in fb.calls(re.compile(r"^indexmap::IndexMap::(get|get_mut|swap_remove|shift_remove|contains_key)$")):
+                if "field:turmoil::host::Tcp::sockets" not in Slicer(ctx.w).atoms(fb, t["args"][0]):
+                    continue
+                nl += 1
+                if not any(a.endswith("SocketPair::new") for a in Slicer(ctx.w).atoms(fb, t["args"][1]) if a.startswith("call:")):
+                    keyed = False
+        ctx.inst(R, "receive_from_network:lookup-order", bad == 0 and n >= 1 and keyed and nl >= 1, rf.span, f"{n} stream lookups use SocketPair(dst, src)" if bad == 0 else
                  f"{bad} stream lookup(s) do not use SocketPair(dst, src): segments are routed to the wrong stream")
     ctx.floor(R, 2)
 
